@@ -376,6 +376,7 @@ func RunBehaviours(bs []Behaviour, out *trace.W, cacheLen int) (nOps int) {
 			}
 			m["b"] = b.ID
 			m["i"] = i
+			m["cached"] = i <= k // executed once for an earlier behaviour with the same prefix, re-logged here
 			out.Emit(m)
 		}
 	}
